@@ -2,7 +2,7 @@
     integrands, table / grid channel maps, operation histories).  Harness code, no proofs. *)
 From Coq Require Import ZArith NArith List String Ascii Bool.
 From HepMC Require Import Num NumB Translated Result Accum VegasPdf Discrete MultiChannel Helper
-  Iter Chkpt Callback Run Codec Sx Cases.
+  Iter Chkpt Callback Run Mpi Codec Sx Cases.
 Import ListNotations.
 Local Open Scope string_scope.
 
@@ -268,6 +268,53 @@ Section RunCases.
       let '(c', idx', log) := r in Ok (CM c', idx', e_log CM rs true log)
     end.
 
+  (** the MPI drivers: every rank's callbacks, events, collectives and final checkpoint *)
+  Definition e_rank {C St} (wrap : C -> anychk) (rs : runspec) (is_mc : bool) (r : nat)
+             (st : rank_state C St) (logs : list (list (rank_log C))) : sx :=
+    let mine := flat_map (fun ls => match nth_error ls r with Some l => [l] | None => [] end) logs in
+    SL ([SY "rank";
+         SL (SY "cbs" :: map (fun l => SL [SN (N.of_nat (chk_nresults (wrap (rl_chk l)))); eB (rl_continue l)]) mine)]
+        ++ (if rs_trace rs then [SL (SY "events" :: flat_map (fun l => map (e_event is_mc) (rl_events l)) mine)] else [])
+        ++ [SL (SY "coll" :: flat_map (fun l => map (fun '(n, k) => SL [SN (N.of_nat n); SN (N.of_nat k)]) (rl_collectives l)) mine);
+            SL [SY "dump"; e_chk (wrap (rs_chk st))]]).
+
+  Fixpoint e_ranks {C St} (wrap : C -> anychk) (rs : runspec) (is_mc : bool) (r : nat)
+           (sts : list (rank_state C St)) (logs : list (list (rank_log C))) : list sx :=
+    match sts with
+    | [] => []
+    | st :: sts' => e_rank wrap rs is_mc r st logs :: e_ranks wrap rs is_mc (S r) sts' logs
+    end.
+
+  Definition e_mpi {C St} (wrap : C -> anychk) (rs : runspec) (is_mc : bool)
+             (x : res (list (rank_state C St) * list (list (rank_log C)))) : sx * option (anychk * N) :=
+    match x with
+    | UB code => (SL [SY "mpi"; SL [SY "ub"; SN (N.of_nat code)]], None)
+    | Ok (sts, logs) =>
+      let iters := N.of_nat (List.length logs) in
+      let '(printed, wrote) :=
+        match rs_cb rs with
+        | CbBuiltin mode _ => (if (N.eqb mode 2 || N.eqb mode 3)%bool then iters else 0%N,
+                               if ((N.eqb mode 1 || N.eqb mode 3) && negb (N.eqb iters 0))%bool then 1%N else 0%N)
+        | CbScript _ => (0%N, 0%N)
+        end in
+      (SL ([SY "mpi"; SL [SY "printed"; SN printed]; SL [SY "file"; SN wrote]] ++ e_ranks wrap rs is_mc 0 sts logs),
+       match sts with st :: _ => Some (wrap (rs_chk st), rs_idx st) | [] => None end)
+    end.
+
+  Definition do_mpi (rs : runspec) (cs : list N) (world : N) (perm : list N) (c : anychk) (idx : N)
+    : sx * option (anychk * N) :=
+    match c with
+    | CP c =>
+      e_mpi CP rs false (mpi_plain_run (rs_strm rs) (rs_ps rs) (rs_f rs) world perm (N.to_nat (rs_dims rs))
+                                       (fun _ c => cb_eval (rs_cb rs) (CP c)) cs c idx)
+    | CV c =>
+      e_mpi CV rs false (mpi_vegas_run L (rs_strm rs) (rs_ps rs) (rs_f rs) world perm (rs_dims rs)
+                                       (fun _ c => cb_eval (rs_cb rs) (CV c)) cs c idx)
+    | CM c =>
+      e_mpi CM rs true (mpi_mc_run L (rs_strm rs) (rs_ps rs) (rs_f rs) world perm (rs_map rs) (N.to_nat (rs_dims rs))
+                                   (rs_channels rs) (fun _ c => cb_eval (rs_cb rs) (CM c)) cs c idx)
+    end.
+
   (** operation histories *)
   Fixpoint do_ops (rs : runspec) (ops : list sx) (c : anychk) (idx : N) : list sx :=
     match ops with
@@ -283,6 +330,17 @@ Section RunCases.
             | UB code => [SL [SY "run"; SL [SY "ub"; SN (N.of_nat code)]]]
             end
           | None => [bad]
+          end
+        else [bad]
+      | SL [SY o; SL cs; SN world; SL perm] =>
+        if String.eqb o "mpi" then
+          match dlist dN cs, dlist dN perm with
+          | Some calls, Some pm =>
+            match do_mpi rs calls world pm c idx with
+            | (out, Some (c', idx')) => out :: do_ops rs ops' c' idx'
+            | (out, None) => [out]
+            end
+          | _, _ => [bad]
           end
         else [bad]
       | SL [SY o; SN k] =>
